@@ -36,6 +36,13 @@ MUTANTS = [
     ('C08', 'pidfile.py', '                if wpid <= 0:', '                if not wpid:', 'negative pid probes a process group'),
     ('C18', 'commands/kill.py', 'processes = [p for p in processes if p.pid == pid]',
      'processes = [p for p in processes if p.pid >= pid]', 'kill reaches other workers than the given pid'),
+    ('C18', 'process.py', 'return self.poll() is None', 'return self.poll() is not None', 'is_alive inverted'),
+    ('C02', 'process.py', 'return self._worker.terminate()', 'return self._worker.kill()',
+     'Process.stop sends SIGKILL instead of SIGTERM'),
+    ('C02', 'watcher.py', '        elif not self.is_stopped():\n            # graceful restart',
+     '        elif num == 1:\n            # graceful restart', 'a set request restarts a stopped watcher'),
+    ('C14', 'watcher.py', "signum == signal.SIGKILL", "signum is signal.SIGKILL",
+     'an integer 9 is no longer exempt from a false before_signal hook'),
     ('C09', 'watcher.py', '("watcher.%s.%s" % (name, topic)).encode', '("watcher.%s.%s" % (topic, name)).encode',
      'event topic fields swapped'),
 ]
